@@ -101,3 +101,18 @@ ASSUMPTIONS = [
     'tick rate <= 10^9 and instants < 2^63 (the representable range of the property statement)',
     'add_time_offset: the resulting instant is < 2^63 (representable)',
 ]
+
+# ---------------------------------------------------------------- C03: add_time_offset on values taken from an untrusted file
+ADD_UNTRUSTED = '''
+__CPROVER_requires(__CPROVER_w_ok($this, sizeof(*$this)))
+__CPROVER_requires(g_exc == 0)
+__CPROVER_assigns($this->m_secs, $this->m_ticks, g_exc)
+__CPROVER_ensures(g_exc == 0 || g_exc == EXC_runtime_error)
+__CPROVER_ensures(g_exc != 0 ==> ($this->m_secs == @S0 && $this->m_ticks == @T0))
+'''
+UNITS.append(Unit('ts.add_time_offset.untrusted', (TS + 'add_time_offset', None), contract=ADD_UNTRUSTED, prelude=P, backend='cvc5',
+                  ghost=[('unsigned long', 'S0', '$this->m_secs'), ('unsigned long', 'T0', '$this->m_ticks')],
+                  setup='  struct Timestamp obj; long a_offset; unsigned long a_tps;\n', args=['&obj', 'a_offset', 'a_tps'], props=['C03'], timeout=600,
+                  post='  if (g_exc != 0) { CANARY("refusal reachable"); }',
+                  note='CdnsBlockRead::read feeds earliest-time, offsets and ticks_per_second from the file into add_time_offset: for ALL 64-bit values '
+                       '(no representable-range precondition) there is no signed overflow and no division by zero; it either succeeds or refuses with the object unchanged'))
